@@ -1358,9 +1358,37 @@ func main() {
 		}
 		return res.obs
 	})
+	// source-derived constants: read from the Go source of this run's tree, compared with the model (srcarp,
+	// srcops) and with the schedule constant of this harness (period)
+	src := readSource()
+	r.Register("srcarp", func(a []string) string {
+		_, want := src.probePayload(len(lib.UnHex(a[0])))
+		return want
+	})
+	r.Register("srcops", func(a []string) string {
+		q, p := strconv.Itoa(src.opRequestRaw), strconv.Itoa(src.opRep)
+		return strings.Join([]string{q, q, q, q, q, p, p, p}, " ")
+	})
 	if r.Replayed() {
 		return
 	}
+	if src.err != "" {
+		r.Viol("source-constants-not-found", "go/ast could not find: "+src.err, "readSource")
+	}
+	if src.tickerMs != period {
+		r.Viol("ticker-period-changed", fmt.Sprintf("the spoof loop's ticker period in the source is %d ms; the schedule of the timed scenarios and docs assume %d ms", src.tickerMs, period), "readSource")
+	}
+	if src.opRequest != src.opRequestRaw || src.opReply != src.opRep {
+		r.Viol("arp-operation-constants", fmt.Sprintf("RequestRaw encodes operation %d (ARPOperationRequest = %d), reply encodes %d (ARPOperationReply = %d)", src.opRequestRaw, src.opRequest, src.opRep, src.opReply), "readSource")
+	}
+	for _, n := range []int{src.arpLen, src.arpLen - 1, src.arpLen + 18, 0} {
+		if n >= 0 {
+			pl, _ := src.probePayload(n)
+			r.Do("srcarp", lib.Hex(pl))
+		}
+	}
+	r.Do("srcops")
+	r.Stat("source.ticker-ms", int64(src.tickerMs))
 	std := stdCfg().tok()
 	oracleBadArgs(r)
 
